@@ -252,6 +252,22 @@ def membership(ctx):
     ctx.ob('MEMBERSHIP', loc, 'the vectors are the system\'s cell vectors', henv.get('vects') is henv['__system__'].box.vects, node=fn)
 
 
+def return_type(ctx):
+    """coordination numbers and neighbour ids are whole numbers on every way out of nlist(): NeighborList slices rows by the count in column 0"""
+    from .. import dtypeflow
+    fn = ctx.fn(NL, 'nlist')
+    fl = dtypeflow.DtypeFlow(fn)
+    n = 0
+    for node, atoms in fl.returns:
+        n += 1
+        und = dtypeflow.undecided(atoms)
+        if und:
+            ctx.need(False, 'nlist: the element type of the table returned at line %d is not decided: %s' % (node.lineno, dtypeflow.describe(und)))
+        ctx.ob('RETURN-TYPE', NL + '::nlist', 'the table returned at `%s` has an integer element type (the count in column 0 is used as a slice bound, the ids as indices)' % norm(node)[:50],
+               set(atoms) <= {dtypeflow.INT, dtypeflow.PI, dtypeflow.PB}, 'element type: %s' % dtypeflow.describe(atoms), node=node, key='return type %s' % norm(node)[:40])
+    ctx.floor('RETURN-TYPE', n, 1)
+
+
 def insertion(ctx):
     fn, fill, sweep, sweepname = sweep_fill_ctx(ctx)
     loc = NL + '::nlist'
@@ -871,6 +887,6 @@ def run(ctx):
                        'nlist() is also interpreted whole, in exact arithmetic, on scripted small configurations (CONFIGURATIONS): the table returned lists exactly the atoms below the cutoff. Not decided: configurations outside the scripted ones beyond what the structural rules imply.')
     from .c02 import minfold, DM
     from .. import readonly, lints
-    ctx.run_rules([lambda c: sweep_fill(c) and None, geometry, membership, insertion, configurations, stencil_pairs, unique_rows, neighborlist,
+    ctx.run_rules([lambda c: sweep_fill(c) and None, geometry, membership, return_type, insertion, configurations, stencil_pairs, unique_rows, neighborlist,
                    lambda c: minfold(c, DM, 'dmag2_c', False), lambda c: readonly.rule(c, NL, floor=2) and None,
                    lambda c: lints.c_double(c, 'C-DOUBLE', NL, floor=18), buffer_types])
